@@ -77,6 +77,9 @@ class LeafNode(TreeNode):
             if cost == 0 and self != node:
                 # e.g., the integer 1 and the string "1": the string representations coincide but the values differ
                 cost = 1
+            # matching must never cost more than replacing; otherwise a short leaf matched against null (whose
+            # string representation "None" is longer than its size of zero) can exceed its parent's cost upper bound
+            cost = min(cost, max(self.total_size, node.total_size) + 1)
             return Match(self, node, cost)
         elif isinstance(node, ContainerNode):
             return Replace(self, node)
